@@ -48,4 +48,12 @@ Proof. cbv zeta. repeat split; vm_compute; reflexivity. Qed.
 Theorem C17_reply_identifiers_rest_on_held_locks : forallb snd LockScope.lock_sites = true.
 Proof. exact AllocConc.allocate_holds_its_lock. Qed.
 
+(* along every run: no call returns twice, and a call that has returned is no longer waiting (so a second reply for
+   it, a duplicate or a late one, finds nothing to be delivered to: C17_stray_reply_dropped) *)
+Theorem C17_each_call_returns_at_most_once : forall cfg ops name c conn,
+  initial_next_id + N.of_nat (length ops) <= max_processes_per_node ->
+  let st := run cfg (node_init name c conn) ops in
+  NoDup (map fst (n_results st)) /\ (forall i, In i (pend_calls st) -> ~ In i (map fst (n_results st))).
+Proof. intros cfg ops name c conn H. exact (returned_once _ (C17_bookkeeping cfg ops name c conn H)). Qed.
+
 Check C17_bookkeeping.
